@@ -108,9 +108,15 @@ class VLoop(asyncio.SelectorEventLoop):
         if not self._ready:
             if time.monotonic() > self.wall_deadline:
                 raise WallWatchdog("wall budget exhausted")
+            # read the in-flight count and the ready queue under the lock the
+            # completions are delivered under: otherwise a completion that lands
+            # between the `not self._ready` test above and this point (appended,
+            # count already back to 0) would let the clock jump to the next timer
+            # -- typically the command's own time-out -- with real work pending
             with self._lk:
                 infl = self._inflight
-            if infl <= 0:
+                still_empty = not self._ready
+            if infl <= 0 and still_empty:
                 when = self._next_timer()
                 if when is not None and when > self._vt:
                     self._vt = when
